@@ -313,10 +313,12 @@ def clauses(q, ctx, lang):
     if q.get('order'):
         o = q['order']
         s = 'ORDER BY ' + ', '.join(render_top(e, ctx, lang, bare) for e in o['keys'])
+        # the direction keyword in the letter case the case says (keywords are case insensitive: Desc, dEsC, aSc)
+        kwc = {'upper': str.upper, 'lower': str.lower, 'title': str.title, 'mixed': lambda w: w[:2].upper() + w[2:].lower(), 'mixed2': lambda w: ''.join(c.upper() if i % 2 else c.lower() for i, c in enumerate(w))}[o.get('dir_kw_case', 'upper')]
         if o.get('desc'):
-            s += ' DESC'
+            s += ' ' + kwc('DESC')
         elif o.get('asc_kw'):
-            s += ' ASC'
+            s += ' ' + kwc('ASC')
         other.append(s)
     if q.get('top') is not None and q.get('top_kw', 'top') == 'limit':
         other.append('LIMIT %d' % q['top'])
@@ -370,7 +372,7 @@ def _scramble_keywords(clause, rng):
                 headpart = _re.sub(r' ON ', lambda mo: ' ' + _case_scramble('ON', rng) + ' ', headpart, count=1)
                 headpart = _re.sub(r' AND ', lambda mo: ' ' + _case_scramble('AND', rng) + ' ', headpart)
     if not rest:
-        m = _re.search(r' (ASC|DESC)$', headpart)
+        m = _re.search(r' (ASC|DESC)$', headpart, _re.I)
         if m and clause.upper().startswith('ORDER BY'):
             headpart = headpart[:m.start()] + ' ' + _case_scramble(m.group(1), rng)
     return headpart + rest
